@@ -4,8 +4,8 @@
 (*   EDGE one line per edit: base value -> near miss                                       *)
 (*   DOC  one line per rendering: value key, tokens, hash events (M), undetected flag      *)
 (*   COR  one line per corrupted rendering                                                 *)
-EXTENDS ReconCompare, Json, SequencesExt
-DumpVal == (st = None) => PrintT(<<"VAL", ToJson([key |-> ValueKey(v), nf |-> NormalForm(v), sv |-> SetToSeq(ShiftForms(v)), sk |-> Skeleton(v), gen |-> gen, ctx |-> ContextOf(v)])>>)
+EXTENDS ReconCompare, Json
+DumpVal == (st = None) => PrintT(<<"VAL", ToJson([key |-> ValueKey(v), nf |-> NormalForm(v), sk |-> Skeleton(v), gen |-> gen, ctx |-> ContextOf(v)])>>)
 DumpDoc == (st # None /\ cor = "none") =>
              LET re == RE(v, st, <<>>) IN
              PrintT(<<"DOC", ToJson([key |-> ValueKey(v), toks |-> re.toks, hev |-> re.ev,
